@@ -444,6 +444,56 @@ def all_nodes(f):
     return out
 
 
+def check_normalize_sorts(rep):
+    """Every sort, also parametric declared sorts nested in each other and
+    in arrays / function sorts, is copied faithfully into another
+    environment - by the type manager and as the sort of a symbol of a
+    normalized formula."""
+    from pysmt.environment import Environment
+    S_, T_ = ('U', 'S'), ('U', 'T')
+    PIR = ('U', 'Pair', (B.INT, B.REAL))
+    LS = ('U', 'List', (S_,))
+    nested = [PIR, LS, ('U', 'Pair', (S_, T_)), ('U', 'List', (PIR,)),
+              ('U', 'List', (LS,)), ('U', 'Pair', (LS, B.REAL)),
+              ('U', 'Pair', (B.ARR(B.INT, S_), ('U', 'List', (B.BV(4),)))),
+              B.ARR(('U', 'Pair', (B.INT, S_)), B.INT), B.ARR(B.INT, LS),
+              B.ARR(LS, ('U', 'List', (T_,))),
+              B.FUN(LS, (('U', 'Pair', (S_, S_)),)),
+              B.FUN(B.BOOL, (('U', 'List', (PIR,)), B.ARR(LS, B.INT))),
+              ('U', 'Triple', (S_, ('U', 'List', (B.INT,)), PIR))]
+    for k, t in enumerate(type_pool() + nested):
+        src, dst = Environment(), Environment()
+        rep.count('sorts_normalized')
+        rep.case(key=('normalize-sort', repr(t)))
+        try:
+            o = B.to_pytype(t, src)
+            o2 = dst.type_manager.normalize(o)
+            got = B.from_pytype(o2)
+            mgr = src.formula_manager
+            if t[0] == 'Fun':
+                f = mgr.Symbol('ns_f', o)
+                c = dst.formula_manager.normalize(f)
+                got_f = B.from_pytype(c.symbol_type())
+            else:
+                f = mgr.Equals(mgr.Symbol('ns_a', o), mgr.Symbol('ns_b', o)) \
+                    if t != B.BOOL else mgr.Iff(mgr.Symbol('ns_a', o),
+                                                mgr.Symbol('ns_b', o))
+                c = dst.formula_manager.normalize(f)
+                got_f = B.from_pytype(c.arg(0).symbol_type())
+        except Exception as e:
+            rep.violation('C04/normalize/sort-raises/%s' % common.exc_name(e),
+                          'copying the sort %r into another environment '
+                          'raised %r at %s' % (t, e, common.tb_short(e)),
+                          {'sort': repr(t)})
+            continue
+        if got != t or got_f != t:
+            rep.violation('C04/normalize/sort-changed/%s' % t[0],
+                          'the sort %r arrives as %r (type manager) / %r '
+                          '(symbol of a normalized formula)' % (t, got,
+                                                                got_f),
+                          {'sort': repr(t)})
+
+
 def check_normalize(rep, rng, n):
     from pysmt.environment import Environment, push_env, pop_env
     for j in range(n):
@@ -589,6 +639,8 @@ def run(rep):
     if not only or only == 'arrays':
         check_array_get(rep, rng, 150 if quick else 20000)
     until(1.0)
+    if (not only or only == 'normalize') and rep.shard == 3 % rep.nshards:
+        check_normalize_sorts(rep)
     if not only or only == 'normalize':
         check_normalize(rep, rng, 40 if quick else 20000)
     nm = M.NODE_MONITOR
